@@ -1,0 +1,47 @@
+// Instrumentation used only by the external verification harness. This module is compiled only
+// when the `verif` feature is enabled; with the feature off (the default), nothing here exists and
+// none of the hook call sites are compiled.
+#![allow(dead_code)]
+
+use std::cell::Cell;
+
+thread_local! {
+    // Number of times a memoized parsing function was entered (cache hits included).
+    static MEMO_ENTER: Cell<u64> = const { Cell::new(0) };
+
+    // Number of those entries that were answered from the cache.
+    static MEMO_HIT: Cell<u64> = const { Cell::new(0) };
+
+    // Number of times `open` or `signed_shift` reached an unresolved unifier.
+    static HOLES_OPENED: Cell<u64> = const { Cell::new(0) };
+}
+
+pub fn reset() {
+    MEMO_ENTER.with(|c| c.set(0));
+    MEMO_HIT.with(|c| c.set(0));
+    HOLES_OPENED.with(|c| c.set(0));
+}
+
+pub fn memo_enter() {
+    MEMO_ENTER.with(|c| c.set(c.get() + 1));
+}
+
+pub fn memo_hit() {
+    MEMO_HIT.with(|c| c.set(c.get() + 1));
+}
+
+pub fn hole_opened() {
+    HOLES_OPENED.with(|c| c.set(c.get() + 1));
+}
+
+pub fn memo_entries() -> u64 {
+    MEMO_ENTER.with(Cell::get)
+}
+
+pub fn memo_hits() -> u64 {
+    MEMO_HIT.with(Cell::get)
+}
+
+pub fn holes_opened() -> u64 {
+    HOLES_OPENED.with(Cell::get)
+}
